@@ -80,6 +80,7 @@ def instances(tier):
             out.append(('oneway2', ow2, dict(fam=fam, T=2, ne=False, **ALLSYM), [('match', 2), ('match_u', 2)], {}))
             out.append(('oneway2', ow2, dict(fam=fam, T=3, ne=False, **MD), [('match', 3), ('match_u', 3)], {}))
             out.append(('line2', g2, dict(fam=fam, T=2, ne=False, **MD), [('match', 2), ('match_u', 2)], {}))
+            out.append(('line2', g2, dict(fam=fam, T=3, ne=False, sym_maxdist=False, sym_init=False, sym_minprob=False), [('match', 3), ('match_u', 3)], {}))
             out.append(('oneway3', g3, dict(fam=fam, T=2, ne=True, **MD), [('match', 2), ('match_u', 2)], {}))
         out.append(('oneway4', NAMED['oneway4'], dict(fam='simple', T=2, ne=True, **MD), [('match', 2), ('match_u', 2)], {}))
         out.append(('oneway3', g3, dict(fam='simple', T=3, ne=False, **MP), [('match', 3), ('match_u', 3)], {}))
